@@ -456,7 +456,7 @@ CONTRACTS.append(CalculateWorld())
 
 # =================================================================================================
 # _connected_axes / dependent_axes: the fixpoint that decides which axes may be dropped (the broadcasting shortcuts rest on it).
-# The boolean matrix entries are symbolic; the matrix size is the configuration (every size up to 3 x 3, 4 x 4 thorough).  The while
+# The boolean matrix entries are symbolic; the matrix size is the configuration (every size up to 4 x 4, 6 x 6 thorough).  The while
 # loop is under an inductive contract (no unrolling): the current sets contain the seeds and are contained in EVERY closed pair of sets
 # that contains the seeds (the pair (Pc, Wc) is arbitrary: free constants of the VC); on return the pair is itself closed, hence the
 # least closed pair = the axes connected to the seeds.  Variant: number of axes not yet marked.
@@ -539,7 +539,7 @@ class ConnectedAxes(FnContract):
 
     def configs(self, tier):
         out = []
-        mx = 4 if tier == 'thorough' else 3
+        mx = 6 if tier == 'thorough' else 4
         for nw in range(1, mx + 1):
             for npx in range(1, mx + 1):
                 for a in range(max(nw, npx)):
@@ -671,7 +671,7 @@ class DependentAxes(FnContract):
 
     def configs(self, tier):
         out = [dict(nw=1, np=1, axis=0, legacy=True), dict(nw=3, np=3, axis=2, legacy=True)]
-        mx = 4 if tier == 'thorough' else 3
+        mx = 6 if tier == 'thorough' else 4
         for nw in range(1, mx + 1):
             for npx in range(1, mx + 1):
                 for a in range(max(nw, npx)):
@@ -787,3 +787,120 @@ class DependentAxes(FnContract):
 
 
 CONTRACTS.append(DependentAxes())
+
+
+# =================================================================================================
+from pyvc.values import BoundMethod as _BoundMethod
+
+DATA = "glue/core/data.py"
+
+
+class CoordinateLinkInit(FnContract):
+    """CoordinateComponentLink.__init__: the link's inputs are exactly the identifiers at the positions dependent_axes returns, in that order
+    (using() places the arguments back by the same tuple, see LinkUsing), and everything using() reads later is stored."""
+    property_ids = ('C15',)
+    target = CL + ":CoordinateComponentLink.__init__"
+    title = ("dependent_axes is asked for this coordinate object and index; the link's inputs are the identifiers at exactly those positions, in that order; target, "
+             "coordinate object, index, direction, rank and the needed positions are stored for using()")
+
+    def configs(self, tier):
+        out = []
+        for nd in (1, 2, 3):
+            for index in range(nd):
+                for r in range(1, nd + 1):
+                    for needed in itertools.combinations(range(nd), r):
+                        for p2w in (True, False, None):
+                            out.append(dict(ndim=nd, index=index, needed=','.join(map(str, needed)), pixel2world=str(p2w)))
+        return out
+
+    def inputs(self, cfg, P):
+        nd = cfg['ndim']
+        ids = [PObj('ComponentID', fields={'label': 'from%d' % i}) for i in range(nd)]
+        comp_from = PList(list(ids))
+        comp_to = PObj('ComponentID', fields={'label': 'to'})
+        coords = PObj('coords')
+        link = PObj('CoordinateComponentLink')
+        link.methods['using'] = lambda I, s, *a: _unsupported("using() is not called by the constructor")
+        needed = tuple(int(x) for x in cfg['needed'].split(','))
+        st = St(nd=nd, ids=ids, comp_from=comp_from, comp_to=comp_to, coords=coords, link=link, needed=needed, asked=[], supers=[])
+        kw = {} if cfg['pixel2world'] == 'None' else {'pixel2world': cfg['pixel2world'] == 'True'}
+        return Inputs([link, comp_from, comp_to, coords, cfg['index']], kw, st=st)
+
+    def globals_(self, cfg, st):
+        def dep_axes(I, coords, index):
+            st.asked.append((coords, index))
+            return st.needed
+
+        def super_(I, *a):
+            proxy = PObj('super')
+            proxy.methods['__init__'] = lambda I2, s, *args, **kw: st.supers.append((args, kw))
+            return proxy
+        return {'dependent_axes': Builtin('dependent_axes', dep_axes), 'super': Builtin('super', super_), 'CoordinateComponentLink': PType('CoordinateComponentLink')}
+
+    def ensures(self, cfg, st, result):
+        f = st.link.fields
+        want_dir = cfg['pixel2world'] != 'False'
+        out = [('dependent-axes-asked-once-for-this-object-and-index', len(st.asked) == 1 and st.asked[0][0] is st.coords and st.asked[0][1] == cfg['index']),
+               ('base-constructor-called-once', len(st.supers) == 1)]
+        if len(st.supers) == 1:
+            args, kw = st.supers[0]
+            ok = len(args) == 3 and not kw
+            out.append(('base-constructor-gets-inputs-target-function', ok))
+            if ok:
+                got = args[0].items if isinstance(args[0], PList) else (list(args[0]) if isinstance(args[0], (list, tuple)) else None)
+                out.append(('inputs-are-the-identifiers-at-the-needed-positions-in-order',
+                            got is not None and len(got) == len(st.needed) and all(g is st.ids[i] for g, i in zip(got, st.needed))))
+                out.append(('target-is-the-given-identifier', args[1] is st.comp_to))
+                out.append(('function-is-the-link\'s-own-using', isinstance(args[2], _BoundMethod) and args[2].obj is st.link and args[2].name == 'using'))
+        out += [('stores-the-coordinate-object', f.get('coords') is st.coords), ('stores-the-index', f.get('index') == cfg['index']),
+                ('stores-the-direction', f.get('pixel2world') is want_dir), ('stores-the-rank', f.get('ndim') == st.nd),
+                ('stores-the-needed-positions', f.get('from_needed') == st.needed)]
+        return out
+
+
+class SetUpCoordinateLinks(FnContract):
+    property_ids = ('C15',)
+    target = DATA + ":Data._set_up_coordinate_component_links"
+    title = ("for every axis i one pixel->world link (all pixel identifiers -> world identifier i, index i) and one world->pixel link (all world identifiers -> pixel identifier i, "
+             "index i, pixel2world=False), both on the dataset's coordinate object, in that order; the list is stored and returned; without coordinates nothing is created")
+
+    def configs(self, tier):
+        return [dict(ndim=n, coords=c) for n in (0, 1, 2, 3, 4) for c in (True, False)]
+
+    def inputs(self, cfg, P):
+        n = cfg['ndim']
+        pix = PList([PObj('ComponentID', fields={'label': 'pixel%d' % i}) for i in range(n)])
+        wor = PList([PObj('ComponentID', fields={'label': 'world%d' % i}) for i in range(n)])
+        coords = PObj('coords') if cfg['coords'] else None
+        before = PObj('earlier-links')
+        d = PObj('Data', fields={'coords': coords, '_pixel_component_ids': pix, '_world_component_ids': wor, '_coordinate_links': before})
+        st = St(d=d, pix=pix, wor=wor, coords=coords, before=before, made=[], n=n)
+        return Inputs([d, n], st=st)
+
+    def globals_(self, cfg, st):
+        def mk(I, comp_from, comp_to, coords, index, pixel2world=True):
+            link = PObj('CoordinateComponentLink', fields={'comp_from': comp_from, 'comp_to': comp_to, 'coords': coords, 'index': index, 'pixel2world': pixel2world})
+            st.made.append(link)
+            return link
+        return {'CoordinateComponentLink': Builtin('CoordinateComponentLink', mk)}
+
+    def ensures(self, cfg, st, result):
+        if not cfg['coords']:
+            return [('no-coordinates:returns-nothing', result is None), ('no-coordinates:no-link-created', len(st.made) == 0),
+                    ('no-coordinates:stored-links-untouched', st.d.fields.get('_coordinate_links') is st.before)]
+        ok = isinstance(result, PList) and len(result.items) == 2 * st.n
+        out = [('two-links-per-axis', ok), ('stored-on-the-dataset', st.d.fields.get('_coordinate_links') is result),
+               ('nothing-else-created', len(st.made) == 2 * st.n)]
+        if ok:
+            for i in range(st.n):
+                a, b = result.items[2 * i], result.items[2 * i + 1]
+                fa, fb = a.fields, b.fields
+                out.append(('axis-%d:pixel-to-world-link' % i, fa['comp_from'] is st.pix and fa['comp_to'] is st.wor.items[i] and fa['coords'] is st.coords
+                            and fa['index'] == i and fa['pixel2world'] is True))
+                out.append(('axis-%d:world-to-pixel-link' % i, fb['comp_from'] is st.wor and fb['comp_to'] is st.pix.items[i] and fb['coords'] is st.coords
+                            and fb['index'] == i and fb['pixel2world'] is False))
+        return out
+
+
+CONTRACTS.append(CoordinateLinkInit())
+CONTRACTS.append(SetUpCoordinateLinks())
